@@ -26,8 +26,21 @@ var shSkipStruct = &shape{kind: "struct", fields: map[string]*shape{"A": shInt}}
 var shRawStruct = &shape{kind: "struct", fields: map[string]*shape{"A": shInt, "x": shSkip}}
 var shText = &shape{kind: "text"} // a TextUnmarshaler: a (strict) string literal or null
 var shTextStruct = &shape{kind: "struct", fields: map[string]*shape{"A": shInt, "x": shText}}
+
+// (audit A1) the destinations of the other two key matchers: the same shape, more fields
+func shIntStruct(names ...string) *shape {
+	f := map[string]*shape{}
+	for _, n := range names {
+		f[n] = shInt
+	}
+	return &shape{kind: "struct", fields: f}
+}
+
 var shapes = map[string]*shape{
-	"skip": shSkipStruct, "raw": shRawStruct, "unmarshaler": shRawStruct,
+	"skip16":      shIntStruct("A", "abc", "k", "0", "key with space", "ab", "é", "<>&", " ", "key"),
+	"skipmap":     shIntStruct("A", "B", "C", "D", "E", "F", "G", "H", "I", "J", "L", "M", "N", "O", "P", "abc", "k", "0"),
+	"skiplongkey": shIntStruct("A", "kkkkkkkkkkkkkkkkkkkkkkkkkkkkkkkkkkkkkkkkkkkkkkkkkkkkkkkkkkkkkkkkkkkkkkkkkkkkkkkk"),
+	"skip":        shSkipStruct, "raw": shRawStruct, "unmarshaler": shRawStruct,
 	"array1":        {kind: "array", elem: shInt, n: 1},
 	"slice-of-skip": {kind: "slice", elem: shSkipStruct},
 	"map-of-skip":   {kind: "map", elem: shSkipStruct},
